@@ -58,7 +58,7 @@ class Ctx:
         with open(path, "w") as f:
             for l in lines:
                 f.write(l + "\n")
-        p = subprocess.run([exe, path], capture_output=True, text=True, timeout=timeout, errors="replace")
+        p = subprocess.run([exe, path], capture_output=True, text=True, timeout=timeout, errors="replace", preexec_fn=_big_stack)
         out = p.stdout.split("\n")
         if out and out[-1] == "":
             out.pop()
@@ -92,7 +92,7 @@ class Ctx:
             with open(path, "w") as f:
                 for l in parts[k]:
                     f.write(l + "\n")
-            p = subprocess.run([exe, path], capture_output=True, text=True, timeout=3000, errors="replace")
+            p = subprocess.run([exe, path], capture_output=True, text=True, timeout=3000, errors="replace", preexec_fn=_big_stack)
             out = p.stdout.split("\n")
             if out and out[-1] == "":
                 out.pop()
@@ -105,6 +105,16 @@ class Ctx:
         for k in range(n):
             res[k::n] = outs[k]
         return res
+
+
+def _big_stack():
+    """The extracted model recurses on lists (no tail calls): give it all the stack the system allows."""
+    import resource
+    try:
+        soft, hard = resource.getrlimit(resource.RLIMIT_STACK)
+        resource.setrlimit(resource.RLIMIT_STACK, (hard, hard))
+    except Exception:
+        pass
 
 
 def hexs(b):
